@@ -62,6 +62,11 @@ pub enum Req {
     /// process a (valid, entry-free) reconciliation message of a peer
     SyncProcess(u8),
     GetState(u8),
+    /// set a download policy: needs the document to exist (open or not); on a document that
+    /// does not exist it fails and must change nothing
+    SetPolicy(u8),
+    /// register a useful peer: same
+    RegisterPeer(u8),
 }
 
 fn requests() -> Vec<Req> {
@@ -86,6 +91,8 @@ fn requests() -> Vec<Req> {
             Req::SyncInitial(d),
             Req::SyncProcess(d),
             Req::GetState(d),
+            Req::SetPolicy(d),
+            Req::RegisterPeer(d),
         ]);
     }
     v
@@ -100,6 +107,8 @@ struct Doc {
     /// how many of the subscriptions were made through `Subscribe` and not yet unsubscribed
     unsubscribable: usize,
     entries: ModelReplica,
+    policy_set: bool,
+    peer_registered: bool,
 }
 
 impl Doc {
@@ -254,7 +263,29 @@ fn model_step(m: &mut [Doc; 2], r: Req, step: usize) -> String {
             }
             format!("Ok(sync={} subs={} handles={})", doc.sync, doc.subscribers, doc.handles)
         }
+        Req::SetPolicy(d) => {
+            let doc = &mut m[d as usize];
+            if !doc.exists {
+                return err;
+            }
+            doc.policy_set = true;
+            ok
+        }
+        Req::RegisterPeer(d) => {
+            let doc = &mut m[d as usize];
+            if !doc.exists {
+                return err;
+            }
+            doc.peer_registered = true;
+            ok
+        }
     }
+}
+
+fn the_policy() -> iroh_docs::store::DownloadPolicy {
+    iroh_docs::store::DownloadPolicy::NothingExcept(vec![iroh_docs::store::FilterKind::Prefix(
+        bytes::Bytes::from_static(b"k"),
+    )])
 }
 
 type Subs = [Vec<(async_channel::Sender<Event>, async_channel::Receiver<Event>)>; 2];
@@ -352,6 +383,8 @@ fn issue<'a>(
                 Ok(s) => format!("Ok(sync={} subs={} handles={})", s.sync, s.subscribers, s.handles),
                 Err(_) => "Err".into(),
             },
+            Req::SetPolicy(d) => res(h.set_download_policy(ns_id(d), the_policy()).await),
+            Req::RegisterPeer(d) => res(h.register_useful_peer(ns_id(d), PEER).await),
         }
     })
 }
@@ -408,8 +441,12 @@ fn exec(hist: &[Req]) -> (Bad, String, String) {
         got.push(g);
         want.push(w);
     }
-    // observable state after the history
+    // observable state after the history; the kind of transaction the actor's store holds is
+    // hidden state that later requests may depend on, so it belongs to the canonical key (asked
+    // first: the other observations below may change it)
     let mut key = String::new();
+    key.push_str(block_on_park(h.verif_transaction_kind()).unwrap_or("?"));
+    key.push('|');
     for d in 0..2u8 {
         let st = block_on_park(h.get_state(ns_id(d))).ok();
         let doc = &m[d as usize];
@@ -460,6 +497,27 @@ fn exec(hist: &[Req]) -> (Bad, String, String) {
         }
         key.push_str(&show_entries(&dump));
         key.push('|');
+        // policy and useful peers of the returned store
+        let doc = &m[d as usize];
+        let pol = s2.store.get_download_policy(&ns_id(d)).expect("policy");
+        let want_pol = if doc.policy_set { the_policy() } else { Default::default() };
+        if pol != want_pol {
+            bad.push((
+                "shutdown_store_equals_model",
+                json!({"what": "policy"}),
+                format!("doc {d}: returned store has policy {pol:?}, model {want_pol:?}"),
+            ));
+        }
+        let peers: Option<Vec<[u8; 32]>> = s2.store.get_sync_peers(&ns_id(d)).expect("peers").map(|i| i.collect());
+        let want_peers = doc.peer_registered.then(|| vec![PEER]);
+        if peers != want_peers {
+            bad.push((
+                "shutdown_store_equals_model",
+                json!({"what": "peers"}),
+                format!("doc {d}: returned store lists peers {:?}, model {:?}", peers.as_ref().map(|v| v.len()), want_peers.as_ref().map(|v| v.len())),
+            ));
+        }
+        key.push_str(&format!("{}{}|", doc.policy_set as u8, doc.peer_registered as u8));
     }
     key.push_str(&format!("{listed:?}"));
     drop(s2);
